@@ -16,7 +16,7 @@ if [ "$prop" = C14 ]; then
 fi
 # ---- Miri: real threads under Miri's seeded scheduler with data-race + aliasing detection
 if [ "$tier" = thorough ]; then nscn=24; seeds=48; else nscn=6; seeds=12; fi
-[ "$prop" = C13 ] && { if [ "$tier" = thorough ]; then nscn=32; seeds=8; else nscn=10; seeds=4; fi; }
+[ "$prop" = C13 ] && { if [ "$tier" = thorough ]; then nscn=32; seeds=8; else nscn=6; seeds=4; fi; }
 from=$(( (seed % 1000) * 7 ))
 list=$($SIM miri --seed $seed --list $nscn --from $from) || { echo "threads.sh: harness error: scenario pre-pass failed"; exit 2; }
 t0=$(date +%s.%N)
@@ -45,18 +45,42 @@ if [ "$tier" = thorough ] && [ $rc -eq 0 ]; then
     e2=$(echo "$done2" | tail -1); case "$e2" in ''|*[!0-9]*) e2=0;; esac
     execs=$((execs + e2)); models="stacked-borrows, tree-borrows"
 fi
+# ---- C13: single-threaded scripts under Miri's aliasing checker (held references, `*_mut` set
+# operations against other containers); one Miri process per script range, in parallel
+scripts_done=0
+if [ "$prop" = C13 ] && [ $rc -eq 0 ]; then
+    if [ "$tier" = thorough ]; then per=6; targeted=""; else per=1; targeted="--targeted"; fi
+    base=$(( (seed % 1000) * 16 ))
+    slog=$out/miri-scripts.log
+    seq 0 15 | xargs -P 16 -I{} sh -c "cd $V/sim && MIRIFLAGS='-Zmiri-disable-isolation' cargo +nightly miri run --offline --no-default-features -- miri --scripts $targeted --seed $seed --from \$(( $base + {} * $per )) --to \$(( $base + {} * $per + $per )) 2>&1" > $slog
+    if grep -q "Undefined Behavior\|THREADS-VIOLATION" $slog; then
+        mkdir -p $V/replays
+        bad=$(grep -B200 -m1 "Undefined Behavior\|THREADS-VIOLATION" $slog | grep -o "miri --scripts.*--to [0-9]*" | tail -1)
+        f=$V/replays/$prop-$seed-scripts.miri
+        { echo "# replay: ./check replay $f"; echo "MIRIFLAGS=-Zmiri-disable-isolation"; echo "ARGS=miri --scripts $targeted --seed $seed --from $base --to $(( base + 16 * per ))"; echo "# ---- output"; grep -v "^warning\|^\s*|\|^\s*-->\|^\s*$\|^\.\.\.\|help: remove" $slog | grep -A30 -m1 "Undefined Behavior\|THREADS-VIOLATION" | head -60; } > $f
+        grep -E "Undefined Behavior|THREADS-VIOLATION" $slog | head -3
+        echo "VIOLATION property=$prop replay=$f"
+        rc=1
+    else
+        scripts_done=$(grep -c "scripts(miri): scripts" $slog)
+        if [ "$scripts_done" -lt 16 ]; then echo "threads.sh: harness error: only $scripts_done of 16 Miri script processes finished"; tail -5 $slog; [ $rc -lt 2 ] && rc=2; fi
+        scripts_done=$(( scripts_done * per ))
+        echo "miri scripts: $scripts_done ok"
+    fi
+fi
 t1=$(date +%s.%N)
-python3 - "$out/miri.json" "$list" "$execs" "$seeds" "$models" "$t0" "$t1" "$rc" <<'PY'
+python3 - "$out/miri.json" "$list" "$execs" "$seeds" "$models" "$t0" "$t1" "$rc" "$scripts_done" <<'PY'
 import json, sys
-out, lst, execs, seeds, models, t0, t1, rc = sys.argv[1:]
+out, lst, execs, seeds, models, t0, t1, rc, scripts_done = sys.argv[1:]
 scn = [int(x) for x in lst.split(",") if x]
 json.dump({
   "engine": "Miri (cargo +nightly miri run, -Zmiri-many-seeds, preemption rate 0.1): real std threads under Miri's seeded scheduler; data-race and aliasing (" + models + ") detection inside the library's unsafe code",
   "wall_s": float(t1) - float(t0),
   "violations": 1 if rc == "1" else 0,
   "coverage": {
-    "evaluations": int(execs) * len(scn),
-    "distinct_nontrivial": len(scn),
+    "evaluations": int(execs) * len(scn) + int(scripts_done),
+    "distinct_nontrivial": len(scn) + int(scripts_done),
+    "single_threaded_scripts_under_miri": int(scripts_done),
     "rule": "one evaluation = one scenario (map + workers on disjoint mutable views, holding yielded references while other views are read) under one Miri scheduler seed; distinct non-trivial = distinct scenarios with >= 2 workers and >= 3 entries (selected by a native pre-pass)",
     "scenarios": scn, "miri_seeds_per_scenario": int(seeds), "program_executions_completed": int(execs), "aliasing_models": models,
     "fault_kinds_fired": {"preempt (Miri scheduler preemption, rate 0.1)": "not countable from outside Miri"}
